@@ -19,3 +19,7 @@ def run(tier, seed, verdict):
              "calls are issued through a seeded mix of long-lived handles and fresh lookups",
         assumptions=["dimension descriptors and frames are covered by their own modules",
                      "HDF5-internal layout and objects unreachable through the public API are not compared"])
+
+
+def replay(path):
+    return mr.replay_file(path)
